@@ -30,7 +30,7 @@ from vf import REPO, VERIF_ROOT
 from vf.common import chash, dec, enc
 
 PY = sys.executable
-KF_PATH = os.path.join(VERIF_ROOT, "known_findings.json")
+KF_PATH = os.environ.get("VERIF_KF") or os.path.join(VERIF_ROOT, "known_findings.json")
 
 
 def load_known(pid: str) -> List[Dict[str, Any]]:
